@@ -306,6 +306,75 @@ func btreeOrders(rep *core.Report) {
 			}
 		}()
 	}
+	// many removals: n keys, then removed one by one in three orders down to nothing, Size and IsEmpty
+	// checked after EVERY removal, a sample of lookups now and then, then everything put back (whatever
+	// an implementation does when the removed outnumber the live: compaction, a rebuild)
+	manyN := 2600
+	if thorough {
+		manyN = 12000
+	}
+	for _, order := range []string{"ascending", "descending", "every-other-then-rest"} {
+		func() {
+			wit := fmt.Sprintf("Put of %d keys, then Remove of all of them %s, then Put of all again", manyN, order)
+			defer func() {
+				if r := recover(); r != nil {
+					rep.Add("BTree/many-removals/panic", fmt.Sprintf("panic: %v", r), wit, nil)
+				}
+			}()
+			t := btree.New[int, string]()
+			for k := 0; k < manyN; k++ {
+				t.Put(k, "a")
+			}
+			var victims []int
+			switch order {
+			case "ascending":
+				for k := 0; k < manyN; k++ {
+					victims = append(victims, k)
+				}
+			case "descending":
+				for k := manyN - 1; k >= 0; k-- {
+					victims = append(victims, k)
+				}
+			default:
+				for k := 0; k < manyN; k += 2 {
+					victims = append(victims, k)
+				}
+				for k := 1; k < manyN; k += 2 {
+					victims = append(victims, k)
+				}
+			}
+			gone := map[int]bool{}
+			for i, k := range victims {
+				t.Remove(k)
+				gone[k] = true
+				if n := t.Size(); n != manyN-i-1 || t.IsEmpty() != (n == 0) {
+					rep.Add("BTree.Size/many-removals", fmt.Sprintf("after %d of %d removals Size = %d, IsEmpty = %t, want %d", i+1, manyN, n, t.IsEmpty(), manyN-i-1), wit, nil)
+					return
+				}
+				if i%257 == 0 {
+					for _, probe := range []int{k, (k + 1) % manyN, manyN / 2} {
+						if _, ok := t.Get(probe); ok == gone[probe] {
+							rep.Add("BTree.Get/many-removals", fmt.Sprintf("after %d removals Get(%d) found=%t, removed=%t", i+1, probe, ok, gone[probe]), wit, nil)
+							return
+						}
+					}
+				}
+			}
+			for k := 0; k < manyN; k++ {
+				t.Put(k, "b")
+			}
+			n, prev, bad := 0, -1, false
+			t.Traverse(func(k int, v string) {
+				bad = bad || k != prev+1 || v != "b"
+				prev = k
+				n++
+			})
+			if t.Size() != manyN || n != manyN || bad {
+				rep.Add("BTree.Traverse/many-removals/after-reinsertion", fmt.Sprintf("after removing and re-inserting %d keys: Size = %d, Traverse visited %d (in order with the new values: %t)", manyN, t.Size(), n, !bad), wit, nil)
+			}
+			rep.Inc("transitions", 3*manyN)
+		}()
+	}
 	rep.Set("long_monotone_run_keys", bigN)
 	// Run-structured insertion orders: every order that consists of r monotone runs over disjoint key
 	// intervals — every combination of run lengths 1..L, run directions (ascending/descending) and
